@@ -3,6 +3,6 @@ CONSTANTS
   MaxProcs = 5
   MaxOps = 5
 VIEW view
-INVARIANTS RunningListedOnce LookupRunning ReuseRule NoResurrection
+INVARIANTS RunningListedOnce LookupRunning ReuseRule NoResurrection TextLookup TextLookupFinds
 PROPERTIES IdStable
 CHECK_DEADLOCK FALSE
